@@ -254,11 +254,40 @@ def check_helpers(tree):
         raise TemplateMismatch("support helpers changed shape: " + ", ".join(bad))
 
 
+GEOM = "src/scenic/core/geometry.py"
+
+
+def extract_hypot_support(gtree):
+    """the per-argument transform of `geometry._hypotSupport` as a pair of Lean terms over (l, r); the identity when
+    `hypot` is declared a monotonicDistributionFunction (its support is then method(*lows), method(*highs))"""
+    fn = get_def(gtree, "hypot", GEOM)
+    expect(ast.unparse(body_nodoc(fn)[-1]) == "return math.hypot(*args)", "geometry.hypot is not math.hypot(*args)")
+    decs = [ast.unparse(d) for d in fn.decorator_list]
+    if decs == ["monotonicDistributionFunction"]:
+        return ("l", "r")
+    expect(decs == ["distributionFunction(support=_hypotSupport)"], "geometry.hypot: unexpected decorators " + repr(decs))
+    sup = get_def(gtree, "_hypotSupport", GEOM)
+    expect(sup.args.vararg is not None and sup.args.vararg.arg == "subsupports" and not sup.args.args and sup.args.kwarg is None,
+           "_hypotSupport signature")
+    b = body_nodoc(sup)
+    expect(len(b) == 3 and ast.unparse(b[0]) == "lows, highs = ([], [])" and isinstance(b[1], ast.For)
+           and ast.unparse(b[2]) == "return (math.hypot(*lows), math.hypot(*highs))", "_hypotSupport: outer shape")
+    loop = b[1]
+    expect(ast.unparse(loop.target) == "(l, r)" and ast.unparse(loop.iter) == "subsupports" and not loop.orelse, "_hypotSupport: loop header")
+    lb = loop.body
+    expect(len(lb) >= 3 and ast.unparse(lb[0]) == "if l is None or r is None:\n    return (None, None)", "_hypotSupport: None guard")
+    expect(ast.unparse(lb[-2]) == "lows.append(l)" and ast.unparse(lb[-1]) == "highs.append(r)", "_hypotSupport: appends")
+    kind, env = block(lb[1:-2], {"l": Sym("rat", "l"), "r": Sym("rat", "r")})
+    expect(kind == "env" and env["l"].kind == "rat" and env["r"].kind == "rat", "_hypotSupport: transform")
+    return (env["l"].text, env["r"].text)
+
+
 def extract():
     _, tree = load(DIST)
+    _, gtree = load(GEOM)
     formulas, covered, ucovered = extract_operator_support(tree)
     check_helpers(tree)
-    return {"formulas": formulas, "binOps": covered, "unOps": ucovered}
+    return {"formulas": formulas, "binOps": covered, "unOps": ucovered, "hypAbs": extract_hypot_support(gtree)}
 
 
 def to_lean(d):
@@ -291,6 +320,7 @@ open Scenic.Support
 def supportFormulas : Formulas :=
   {{
 {chr(10).join(rows)}
+    hypAbs := fun l r => ({d["hypAbs"][0]}, {d["hypAbs"][1]}),
     binOps := {bins},
     unOps := {uns} }}
 
